@@ -52,6 +52,24 @@ func main() {
 			c := w.contracts[k]
 			fmt.Printf("%-70s %v modular=%v lemma=%v\n", k, c.Props, c.Modular, c.Lemma)
 		}
+	case "loops":
+		w := loadWorld()
+		for _, fc := range w.contracts {
+			if !strings.Contains(fc.Key, os.Args[2]) {
+				continue
+			}
+			fn := w.resolveFn(fc)
+			if fn == nil {
+				continue
+			}
+			for i, h := range loopHeaders(fn) {
+				var ps []string
+				for k := 0; k < skipPhis(h); k++ {
+					ps = append(ps, h.Instrs[k].(*ssa.Phi).Comment)
+				}
+				fmt.Printf("%s loop %d: block %d (%s) phis %v\n", fc.Key, i+1, h.Index, h.Comment, ps)
+			}
+		}
 	default:
 		usage()
 	}
